@@ -654,7 +654,12 @@ def _src_has(relpath, text):
 
 # `present(repo)`: the entry is active only while the faulty text is still in the working tree's source, so a fix
 # in the repository retires the entry (and its `avoid`) by itself.
-_KNOWN_DEFECTS = {
+# All five defects recorded here were repaired in /repo by "fix:" commits (see /verif/known_findings.json: F13, F27,
+# F43, F44, F39).  A fixed entry suppresses nothing, so the active table is empty; the former entries are kept
+# below for the record only.
+_KNOWN_DEFECTS = {}
+
+_REPAIRED_DEFECTS_FOR_THE_RECORD = {
     "awkward_IndexedArray_overlay_mask": {
         "present": _src_has("src/cpu-kernels/awkward_IndexedArray_overlay_mask.cpp", "toindex[i] = (m ? -1 : fromindex[i]);"),
         "mechanism": "C13-overlay-mask-U32-minus-one",
